@@ -500,8 +500,14 @@ class DPTComplex(DPTBase, Generic[_ComplexDataT]):
         """Serialize to KNX/IP raw data."""
         try:
             if isinstance(value, cls.data_type):
-                return cls._to_knx(value)
-            return cls._to_knx(cls.data_type.from_dict(value))  # type: ignore[arg-type]
+                payload = cls._to_knx(value)
+            else:
+                payload = cls._to_knx(cls.data_type.from_dict(value))  # type: ignore[arg-type]
+            if isinstance(payload, DPTArray):
+                # fields of a value object are not validated on construction -
+                # make sure only octets end up in the payload
+                bytes(payload.value)
+            return payload
         except (ValueError, TypeError, AttributeError, ConversionError) as err:
             raise ConversionError(
                 f"Could not serialize {cls.dpt_name()}: {err}", value=value
